@@ -261,6 +261,9 @@ pub fn c13_literal_sets() -> Vec<[&'static str; 5]> {
         ["3062541302288446171336392163549299867653", "3", "37662610412320084584716148373850690813986345936164176789511", "0", "2"],
         ["0", "0", "1", "-1", "-1"],
         ["-5", "7", "-1", "3", "2"],
+        ["18446744073709551616", "0", "340282366920938463463374607431768211459", "1", "18446744073709551616"],
+        ["-1", "-1", "-1", "0", "1"],
+        ["1", "-1", "79228162514264337593543950336", "79228162514264337593543950336", "-1"],
         ["-18446744073709551615", "9", "-4294967296", "-3", "-2"],
         ["25108406941546723055343157692830665664483208754150976258059", "-2", "37662610412320084585056430740771629277394380311374816346125", "5", "3"],
     ]
@@ -348,6 +351,12 @@ where
     let absorbed = evs.iter().any(|e| e.op == "append" && e.label == b"V" && e.data == vbytes);
     job.check("Prover::commit absorbs the full encoding of the returned commitment under label V", absorbed, String::new());
     job.check("Prover::commit equals PedersenGens::commit on the shadow curve", V.p == c1.p, String::new());
+    {
+        let mut pt0 = Transcript::new(b"c13");
+        let mut prover = Prover::new(&pc, &mut pt0);
+        let (Vz, _) = prover.commit(SymF::zero(), SymF::zero());
+        job.check("Prover::commit(0,0) returns the identity, like PedersenGens::commit(0,0)", Vz.p.is_zero() && Vz.lin().is_empty(), String::new());
+    }
     // a second commitment on the same prover with the SAME blinding and a different value
     {
         let mut pt2 = Transcript::new(b"c13");
